@@ -12,8 +12,9 @@ from .frame_common import BLOCK_UNIT
 
 
 def check_state_for_iface(rep, prog, rule):
-    ix = prog.unit(BLOCK_UNIT)
-    from .frame_common import state_lookup_name
+    from .frame_common import state_lookup_name, state_lookup_unit
+    LUNIT = state_lookup_unit(prog)
+    ix = prog.unit(LUNIT)
     from .frame_common import iface_list_name
     LISTN = iface_list_name(prog)
     LOOKUP = state_lookup_name(prog)       # identified by its role (called from parseFrame, returns the record), not by its name
@@ -34,7 +35,7 @@ def check_state_for_iface(rep, prog, rule):
     E = Engine(prog, port=PortModel(), entry_name=LOOKUP)
     E.loop_info = {}
     E.keep_iter_states = True
-    I, outs = run_entry(prog, BLOCK_UNIT, LOOKUP, setup, engine=E, name=LOOKUP)
+    I, outs = run_entry(prog, LUNIT, LOOKUP, setup, engine=E, name=LOOKUP)
     want_ctx = ('ptr', 'ext:ctx', ZERO)
 
     def knows_key(s2):
